@@ -114,6 +114,9 @@ SELF_WITH_EQ_PROGRAMS = [
 # generated impl - outside the scope of an `#[allow(..)]` written on the item, so a parameter with an unconventional name
 # draws the naming lint from derive_ex's impls although the item silences it (the standard derive draws none)
 PARAM_NAME_LINT_PROGRAMS = [
+    # KNOWN FINDING as well (same family): a `#[deprecated]` field / variant is named by the generated impls
+    ('#[derive_ex(Clone, Debug)] struct Y { #[deprecated] a: u8, b: u8 }',
+     '#[::derive_ex::derive_ex(Clone, Debug)]\npub struct Y { #[deprecated] pub a: u8, pub b: u8 }\npub fn run() {}'),
     ('#[allow(non_upper_case_globals)] #[derive_ex(Clone)] struct Y<const nn: usize>([u8; nn]);',
      '#[allow(non_upper_case_globals)]\n#[::derive_ex::derive_ex(Clone)]\npub struct Y<const nn: usize>(pub [u8; nn]);\npub fn run() {}'),
     ('#[allow(non_camel_case_types)] #[derive(Ex)] #[derive_ex(Clone)] struct Y<t>(t);',
@@ -131,6 +134,30 @@ SELF_FIELD_OPERATOR_PROGRAMS = [
      "impl<'a, A> ::core::ops::Add<W<A>> for &'a W<A> { type Output = W<A>; fn add(self, r: W<A>) -> W<A> { W(self.0 + r.0, PhantomData) } }\n"
      "impl<'a, 'b, A> ::core::ops::Add<&'b W<A>> for &'a W<A> { type Output = W<A>; fn add(self, r: &W<A>) -> W<A> { W(self.0 + r.0, PhantomData) } }\n"
      '#[::derive_ex::derive_ex(Add)]\npub struct X(pub u8, pub W<Self>);\npub fn run() {}'),
+]
+
+
+# user crates of OLDER EDITIONS (2015: a path starting with `::` is looked up in the crate root; 2018): the generated code
+# must not take its edition from the user's tokens
+EDITION_PROGRAMS = [
+    ('#[derive_ex(Default, Debug, Clone)] struct X { #[default("abc")] s: String, #[default(NAME)] t: String, #[default(5)] n: u8 }',
+     '#[::derive_ex::derive_ex(Default, Debug, Clone)]\npub struct X { #[default("abc")] pub s: String, #[default(NAME)] pub t: String, #[default(5)] pub n: u8 }\npub const NAME: &str = "n";\npub fn run() {}'),
+    ('#[derive(Ex)] #[derive_ex(Default, Debug)] #[default(Self::NEW)] struct X(u8);',
+     '#[derive(::derive_ex::Ex)]\n#[derive_ex(Default, Debug)]\n#[default(Self::NEW)]\npub struct X(pub u8);\nimpl X { pub const NEW: X = X(1); }\npub fn run() {}'),
+    ('#[derive_ex(Default, PartialEq)] enum E { A, #[default] B { #[default("x")] s: String, #[default(mk())] n: u8 } }',
+     '#[::derive_ex::derive_ex(Default, PartialEq)]\npub enum E { A, #[default] B { #[default("x")] s: String, #[default(mk())] n: u8 } }\npub fn mk() -> u8 { 1 }\npub fn run() {}'),
+    ('#[derive_ex(PartialEq, Eq, Hash, PartialOrd, Ord)] struct X(#[ord(key = $ % 3)] u8, u8);',
+     '#[::derive_ex::derive_ex(PartialEq, Eq, Hash, PartialOrd, Ord)]\npub struct X(#[ord(key = $ % 3)] pub u8, pub u8);\npub fn run() {}'),
+    ('#[derive(Ex)] #[derive_ex(PartialEq, Eq, Hash, PartialOrd, Ord)] enum E { A(#[partial_eq(key = $ + 1)] #[eq(key = $ + 1)] #[partial_ord(key = $ / 2)] #[ord(key = $ / 2)] #[hash(key = $ + 1)] u8), B }',
+     '#[derive(::derive_ex::Ex)]\n#[derive_ex(PartialEq, Eq, Hash, PartialOrd, Ord)]\npub enum E { A(#[partial_eq(key = $ + 1)] #[eq(key = $ + 1)] #[partial_ord(key = $ / 2)] #[ord(key = $ / 2)] #[hash(key = $ + 1)] u8), B }\npub fn run() {}'),
+    ('#[derive_ex(PartialEq, PartialOrd, Eq, Ord, Hash)] struct X(#[ord(by = by_cmp)] #[hash(by = by_hash)] u8);',
+     '#[::derive_ex::derive_ex(PartialEq, PartialOrd, Eq, Ord, Hash)]\npub struct X(#[ord(by = by_cmp)] #[hash(by = by_hash)] pub u8);\npub fn run() {}'),
+    ('#[derive_ex(Clone, Copy, Debug, Add, SubAssign, Neg, Not, Deref, DerefMut)] struct X(Wrapping<u8>);',
+     '#[::derive_ex::derive_ex(Clone, Copy, Debug, Add, SubAssign, Neg, Not, Deref, DerefMut)]\npub struct X(pub ::std::num::Wrapping<u8>);\npub fn run() {}'),
+    ("#[derive_ex(Clone, Debug, PartialEq, Eq, Hash, Default)] enum E<'a, T, const N: usize> { #[default] A, B(&'a T, [u8; N]), C { #[debug(transparent)] c: Option<T> } }",
+     "#[::derive_ex::derive_ex(Clone, Debug, PartialEq, Eq, Hash, Default)]\npub enum E<'a, T, const N: usize> { #[default] A, B(&'a T, [u8; N]), C { #[debug(transparent)] c: Option<T> } }\npub fn run() {}"),
+    ('#[derive_ex(Add, AddAssign)] impl Add<X> for X { .. }',
+     '#[derive(Clone)] pub struct X(pub u8);\n#[::derive_ex::derive_ex(Add, AddAssign)]\nimpl ::std::ops::Add<X> for X { type Output = X; fn add(self, r: X) -> X { X(self.0 + r.0) } }\npub fn run() {}'),
 ]
 
 
@@ -366,6 +393,13 @@ class C20(Prop):
         nb = max(1, min(R.NPROC, len(mods) // 40 + 1))
         batches = [('c20_%d' % k, mods[k::nb]) for k in range(nb)]
         l2.compile_parallel(batches, prelude=PRELUDE, check_only=True, crate_attrs=CRATE_ATTRS)
+        # the same kind of program in crates of edition 2015 / 2018
+        emods = {}
+        for ed in ('2015', '2018'):
+            emods[ed] = [l2.Module(6 * 10 ** 6 + 100 * int(ed[2:]) + k, src, _Lit(text + '   [edition %s crate]' % ed)) for k, (text, src) in enumerate(EDITION_PROGRAMS)]
+            l2.compile_batch('c20ed' + ed, emods[ed], prelude='extern crate derive_ex;\n' + PRELUDE.replace('::core::', '::std::'), check_only=True, crate_attrs=CRATE_ATTRS, edition=ed)
+            l2.cleanup('c20ed' + ed)
+        mods = mods + emods['2015'] + emods['2018']
         failures, validated, samples = [], 0, []
         for mo in mods:
             r = mo.meta
